@@ -251,7 +251,28 @@ def props_report(pid, workdir):
         txt = re.sub(r"\(\*.*?\*\)", "", fh.read(), flags=re.S)
     thms = re.findall(r"^\s*(?:Theorem|Corollary)\s+(\w+)", txt, flags=re.M)
     nprint = len(re.findall(r"Print Assumptions", txt))
-    rc, out = coqc_file(src, workdir, out_vo=os.path.join(ensure_dir(os.path.join(workdir, "props")), pid + ".vo"))
+    # Print Assumptions walks the whole proof closure (tens of seconds for the large developments); its output is a
+    # function of the compiled files, so it is cached against the fingerprint of Props/<pid>.vo, which `make` has just
+    # brought up to date (any change below it rebuilds it).
+    vo = src + "o"
+    fp = None
+    if os.path.exists(vo):
+        st = os.stat(vo)
+        fp = "%d-%d-%s" % (st.st_size, int(st.st_mtime * 1000), hashlib.sha1(open(src, "rb").read()).hexdigest()[:12])
+    cache = os.path.join(WORK, "assumptions_%s.json" % pid)
+    rc = out = None
+    if fp and os.path.exists(cache):
+        try:
+            c = json.load(open(cache))
+            if c.get("fp") == fp and c.get("repo") == REPO:
+                rc, out = c["rc"], c["out"]
+        except Exception:
+            pass
+    if out is None:
+        rc, out = coqc_file(src, workdir, out_vo=os.path.join(ensure_dir(os.path.join(workdir, "props")), pid + ".vo"))
+        if fp and rc == 0:
+            with open(cache, "w") as fh:
+                json.dump({"fp": fp, "repo": REPO, "rc": rc, "out": out}, fh)
     closed = out.count("Closed under the global context")
     axioms = []
     for m in re.finditer(r"Axioms:\n((?:.+\n?)+?)(?:\n|$)", out):
